@@ -1022,6 +1022,11 @@ class TypeAnnotator:
         if kind and kind.is_type(exp.DType.UNKNOWN):
             return None
 
+        if kind:
+            # The type can be a node of the AST itself (e.g. the target type of a Cast), so we
+            # copy it to avoid re-parenting that node under the struct type we're building
+            kind = kind.copy()
+
         if this:
             return exp.ColumnDef(this=this, kind=kind)
 
